@@ -478,6 +478,46 @@ pub fn run(ctx: &Ctx) {
             std::process::exit(75);
         }
     }
+    // ---- fork() while holding an injector: the child inherits the live injector (patches and all), so in the child,
+    // too, nobody else may be given a guard while it is alive
+    {
+        let idx = configs.len() as u64 + 5;
+        if ctx.mine(idx) && !tsan {
+            let class = "fork-while-holding/another-thread-in-the-child-asks-for-a-guard".to_string();
+            out::intent(idx, &class, &J::new().s("crash_sig", "fork-while-holding"));
+            let mut inj = InjectorPP::new();
+            inj.when_called(injectorpp::func!(fn (shared)(i32) -> i32)).will_execute_raw(injectorpp::func!(fn (t9)(i32) -> i32));
+            let pid = unsafe { libc::fork() };
+            if pid == 0 {
+                let (tx, rx) = std::sync::mpsc::channel::<i32>();
+                std::thread::spawn(move || {
+                    let p = InjectorPP::prevent(); // must wait: the forked copy of the injector is alive
+                    let v = shared(0);
+                    let _ = tx.send(v);
+                    drop(p);
+                });
+                let code = match rx.recv_timeout(Duration::from_millis(1500)) {
+                    Ok(v) if v == ORIG => 4, // admitted (and, oddly, saw the original)
+                    Ok(_) => 3,              // admitted and saw the holder's fake under its preventer
+                    Err(_) => 0,             // kept waiting
+                };
+                unsafe { libc::_exit(code) };
+            }
+            let mut status = 0i32;
+            let wr = if pid > 0 { unsafe { libc::waitpid(pid, &mut status, 0) } } else { -1 };
+            drop(inj);
+            let d = J::new().n("child_wait_status", status);
+            if pid < 0 || wr < 0 {
+                out::outcome(idx, &class, Verdict::Inconclusive, "could-not-fork", &d);
+            } else if libc::WIFEXITED(status) && libc::WEXITSTATUS(status) == 0 {
+                out::outcome(idx, &class, Verdict::Held, "", &d);
+            } else if libc::WIFEXITED(status) && (libc::WEXITSTATUS(status) == 3 || libc::WEXITSTATUS(status) == 4) {
+                out::outcome(idx, &class, Verdict::Violated, "two-holders-at-once", &d.s("where", "in a forked child whose forking thread held an injector"));
+            } else {
+                out::outcome(idx, &class, Verdict::Inconclusive, "forked-child-ended-unexpectedly", &d);
+            }
+        }
+    }
     // ---- many acquisitions in one process: 70 000 uncontended guards one after the other (a lock that keeps a
     // 16-bit ticket, generation or recursion count somewhere wraps in here), then another thread must still get in
     {
